@@ -219,9 +219,10 @@ def reproducibility(rep, rng, specs, quick, dd):
     n_seeds = 2 if quick else 5
     n_seq = 2 if quick else 6
     for spec in specs:
-        for _ in range(n_seeds):
-            seed = int(rng.integers(0, 2 ** 31))
-            for _ in range(n_seq):
+        for si in range(n_seeds + 1):
+            # boundary seeds are seeds too: 0 (falsy), 2**32 - 1 (largest legacy seed)
+            seed = int(rng.integers(0, 2 ** 31)) if si < n_seeds else (0 if specs.index(spec) % 2 == 0 or not quick else 2 ** 32 - 1)
+            for _ in range(n_seq if si < n_seeds else 1):
                 calls = gen_calls(spec, rng, quick)
                 pert = [(int(rng.integers(0, 2 ** 31)), int(rng.integers(0, 7))) for _ in range(len(calls) + 1)]
                 info = {"spec": spec, "seed": seed, "calls": calls}
